@@ -51,6 +51,8 @@ func runC01(r *Run) {
 	// capped at 1: that cap is C04.R1's obligation, repeated here because "no pool is ever negative" depends on it
 	r.rule("C01.R6", "slash path non-negativity: the proportion applied to pools and undelegations is the capped one (C04.R1/R2 obligations)", 3)
 	r.rule("C01.R7", "the published staking total moves only through the non-negativity-checked helper with the requested amount; a native-restaking decrease that reaches the delegated share is spread over its token value", 3)
+	r.rule("C01.R8", "iteration callbacks (stop bool, err error) of the restaking keepers ask the iterator to stop only together with an error; deliberate stops are audited and stay under their condition", 8)
+	callbacksStopOnlyWithError(r, "C01.R8")
 	if pv := w.View("x/assets/keeper", "Keeper.PerformDepositOrWithdraw"); pv != nil {
 		prm := paramName(pv, 1)
 		ok := pv.rejectsWhen(pv.Decl.Body, func(f Fact) bool {
